@@ -804,6 +804,11 @@ func (d *badgerNodeDB) Prune(version uint64) error {
 		if innerErr != nil {
 			return innerErr
 		}
+		if errors.Is(err, api.ErrRootNotFound) {
+			// The root node key is removed in the same batch as the root's nodes, so the root
+			// has already been processed by an interrupted prune of this version.
+			continue
+		}
 		if err != nil {
 			return err
 		}
